@@ -17,4 +17,6 @@ import Solvor.Path.Theorems
 #print axioms Solvor.Path.dijkstra_certifies
 #print axioms Solvor.Path.astar_sound_any_heuristic
 #print axioms Solvor.Path.astar_certifies
-#print axioms Solvor.Path.floyd_warshall_certifies_partial
+#print axioms Solvor.Path.floyd_warshall_real
+#print axioms Solvor.Path.floyd_warshall_certifies
+#print axioms Solvor.Path.bf_rounds_bound
